@@ -158,6 +158,7 @@ def cdwf_registry():
                 'nodes_and_edges_list': [(Xs(i, k), dyn.EdgesF(Xs(i, k))) for i in range(ns)],
                 'system_states_list': Seq(z3.If(ra, k, 0), lambda j: rec_list(ns, j), 'list'),
                 'field_list': Seq(z3.If(ra, k, 0), lambda j: A(j), 'list'),
+                't': MaybeUndef(tk(g, k - 1), k >= 1),          # the time of the previous iteration until re-assigned
                 'field': MaybeUndef(A(k - 1), k >= 1),
                 'previous_state_list': MaybeUndef(rec_list(ns, k - 1), k >= 1)}
         return tmpl
